@@ -1,7 +1,7 @@
 (* RtlilP.v — the RTLIL checker of Model/Rtlil.v decides the declarative well-formedness predicate:
    every boolean clause is equivalent to its Prop clause, hence wf_doc ex d = true <-> WellFormed ex d.
-   Also: the name de-duplication step (add_name / assign_names) returns pairwise distinct fresh names whenever
-   its assertion holds, always succeeds on `$`-free names, and fails on the witness a, a$2, a. *)
+   Also: the name de-duplication step (add_name / assign_names, with the retry loop of _ir._add_name) always
+   terminates and returns pairwise distinct fresh names, for all name lists (names containing `$` included). *)
 From Coq Require Import ZArith List Bool String Ascii Lia ZifyBool DecimalString DecimalNat.
 From V.Model Require Import Rtlil.
 Import ListNotations.
